@@ -488,3 +488,244 @@ Proof.
   - destruct (_ && _); reflexivity.
   - destruct (drop_blank _ _) as [p1 rest]. destruct (_ || _); unfold xfield_canon; cbn [x_cont x_w0 x_nl forallb xc_ind]; rewrite ?str_eqb_refl, Hm; reflexivity.
 Qed.
+
+(* ================================================================ the paragraph *)
+Notation xcom := (str * option N)%type.
+Definition xcom_item (c : xcom) : xitem := XComment (fst c) (snd c).
+Definition celems (c : xcom) : list tree := telems (xcomment_toks (fst c) (snd c)).
+Definition comw (more : bool) (c : xcom) : bool := xwf_comment (fst c) (snd c) more.
+Definition gtree (g : list xcom * xfield) : list tree * tree := (flat_map celems (fst g), xfield_tree (snd g)).
+(* a tree list and the items it prints and reports *)
+Definition den (X : list tree) (I : list xitem) : Prop :=
+  texts X = tstr (flat_map xitem_toks I) /\ pitems X = flat_map xitem_pairs I.
+
+Lemma den_nil : den [] [].
+Proof. split; reflexivity. Qed.
+Lemma den_app X1 I1 X2 I2 : den X1 I1 -> den X2 I2 -> den (X1 ++ X2) (I1 ++ I2).
+Proof.
+  intros [A1 B1] [A2 B2]. split.
+  - rewrite texts_app, !flat_map_app, tstr_app, A1, A2. reflexivity.
+  - rewrite pitems_app, flat_map_app, B1, B2. reflexivity.
+Qed.
+
+Lemma celems_loose c : forallb loose (celems c) = true.
+Proof. destruct c as [c [nl|]]; reflexivity. Qed.
+Lemma flat_celems_loose cs : forallb loose (flat_map celems cs) = true.
+Proof. induction cs as [|c r IH]; [reflexivity|]. cbn [flat_map]. rewrite forallb_app, celems_loose, IH. reflexivity. Qed.
+
+Lemma den_comments cs : den (flat_map celems cs) (map xcom_item cs).
+Proof.
+  split.
+  - induction cs as [|c r IH]; [reflexivity|]. cbn [flat_map map]. rewrite texts_app, tstr_app, IH. f_equal. unfold celems, xcom_item. cbn [xitem_toks]. apply texts_telems.
+  - rewrite (pitems_loose _ (flat_celems_loose cs)). induction cs as [|c r IH]; [reflexivity|]. cbn [map flat_map xcom_item xitem_pairs app]. exact IH.
+Qed.
+
+Definition tks (ts : list token) : bool := forallb (fun t => tkind (fst t)) ts.
+Lemma tks_telems ts : tks ts = true -> forallb is_tok_elem (telems ts) = true.
+Proof.
+  induction ts as [|[k s] r IH]; [reflexivity|]. cbn [tks forallb fst]. intros H. apply andb_true_iff in H. destruct H as [Hk Hr].
+  rewrite telems_cons. cbn [forallb is_tok_elem]. rewrite Hk. exact (IH Hr).
+Qed.
+Lemma tks_opt k s : tkind k = true -> tks (opt_tok k s) = true.
+Proof. intros H. destruct s; [reflexivity|]. cbn [opt_tok tks forallb fst]. rewrite H. reflexivity. Qed.
+Lemma tks_xtail cs o : tks (xtail cs o) = true.
+Proof.
+  induction cs as [|c r IH]; [destruct o; reflexivity|]. rewrite xtail_cons. unfold tks in *. cbn [forallb fst tkind ckind andb].
+  rewrite forallb_app, IH, andb_true_r. destruct (xc_pay c); reflexivity.
+Qed.
+Lemma tks_xfield f : tks (xfield_toks f) = true.
+Proof.
+  unfold xfield_toks. fold (xtail (x_cont f) (x_nl f)). unfold tks. cbn [forallb fst tkind andb]. rewrite forallb_app. cbn [forallb fst tkind andb].
+  rewrite !forallb_app. fold (tks (opt_tok WHITESPACE (x_w0 f))). fold (tks (opt_tok WHITESPACE (x_w1 f))). fold (tks (opt_tok VALUE (x_first f))). fold (tks (xtail (x_cont f) (x_nl f))).
+  rewrite tks_xtail, !tks_opt; reflexivity.
+Qed.
+
+Lemma xfield_entry_ok ind f : (xn ind f =? 0)%N = false -> entry_ok ind (xfield_tree f) = true.
+Proof.
+  intros Hn. unfold entry_ok, token_entry, xfield_tree. cbn [children]. destruct (xfield_shape ind f) as (_ & En & _). rewrite En, Hn, andb_true_r.
+  apply tks_telems, tks_xfield.
+Qed.
+
+Lemma xn_pos ind f : ind_pos ind -> valid_name (x_name f) = true -> (xn ind f =? 0)%N = false.
+Proof.
+  intros Hi Hv. unfold xn. destruct ind; [|exact Hi]. apply utf8_size_pos. destruct (x_name f); [discriminate|discriminate].
+Qed.
+
+(* one group: its comment lines and its field, reformatted *)
+Lemma den_group ind iel mll g more : ind_pos ind -> xwf_field (snd g) more = true ->
+  den (fst (gtree g) ++ [e_out ind iel mll (snd (gtree g))])
+      (map xcom_item (fst g) ++ [XField (x_ws_field (xn ind (snd g)) iel mll (snd g))]).
+Proof.
+  intros Hi Hwf. apply den_app; [apply den_comments|]. destruct g as [pre fl]. cbn [gtree fst snd] in *.
+  assert (Hv : valid_name (x_name fl) = true) by (unfold xwf_field in Hwf; repeat (apply andb_true_iff in Hwf; destruct Hwf as [Hwf ?]); exact Hwf).
+  pose proof (xn_pos ind fl Hi Hv) as Hn. split.
+  - cbn [flat_map xitem_toks]. rewrite app_nil_r, <- e_out_xfield. rewrite texts_cons, texts_nil, app_nil_r.
+    unfold e_out, entry_out. rewrite text_node. reflexivity.
+  - rewrite pitems_cons_entry by reflexivity. cbn [pitems flat_map xitem_pairs app].
+    pose proof (epair_e_out ind iel mll (xfield_tree fl) (xfield_entry_ok ind fl Hn)) as Ep. unfold epair in Ep.
+    rewrite entry_key_xfield, entry_value_xfield in Ep.
+    destruct (x_ws_field_content (xn ind fl) iel mll fl more Hwf) as [E1 E2].
+    destruct (entry_key (e_out ind iel mll (xfield_tree fl))) as [k|]; [|discriminate]. injection Ep as -> Ev.
+    unfold xfield_pair. rewrite E1, E2, Ev. reflexivity.
+Qed.
+
+(* ---- the groups of a paragraph, abstractly ---- *)
+Definition good_group (g : list xcom * xfield) : Prop :=
+  forallb (comw true) (fst g) = true /\ exists m, xwf_field (snd g) m = true.
+Definition itw (it : xitem) : bool :=
+  match it with XField f => xwf_field f true | XComment c nl => xwf_comment c nl true end.
+Lemma xwf_items_true I : xwf_items I true = forallb itw I.
+Proof.
+  induction I as [|it r IH]; [reflexivity|]. cbn [xwf_items forallb]. rewrite IH. f_equal.
+  destruct r; destruct it; reflexivity.
+Qed.
+Lemma comw_items cur more : forallb (comw true) cur = true -> xwf_items (map xcom_item cur) more = true.
+Proof.
+  intros H. apply xwf_items_mono. rewrite xwf_items_true, forallb_forall. intros x Hx. apply in_map_iff in Hx. destruct Hx as (c & <- & Hc).
+  rewrite forallb_forall in H. exact (H c Hc).
+Qed.
+
+Lemma p_groups_abs its : forall more cur, xwf_items its more = true -> forallb (comw true) cur = true ->
+  exists AG tr, p_groups (flat_map xitem_elems its) (flat_map celems cur) = (map gtree AG, flat_map celems tr) /\
+    Forall good_group AG /\ xwf_items (map xcom_item tr) more = true /\
+    (match its with XField _ :: _ => AG <> [] | _ => True end).
+Proof.
+  induction its as [|it r IH]; intros more cur Hwf Hcur.
+  - exists [], cur. cbn [flat_map p_groups map]. repeat split; [constructor|apply comw_items, Hcur].
+  - cbn [xwf_items] in Hwf. apply andb_true_iff in Hwf. destruct Hwf as [Hit Hr]. destruct it as [fl|c nl]; cbn [flat_map xitem_elems].
+    + cbn [app p_groups]. change (loose (xfield_tree fl)) with false. cbv iota.
+      destruct (IH more [] Hr eq_refl) as (AG & tr & E & HG & Htr & _). cbn [flat_map] in E. rewrite E.
+      exists ((cur, fl) :: AG), tr. cbn [map gtree fst snd]. split; [reflexivity|]. split; [|split; [exact Htr|discriminate]].
+      constructor; [|exact HG]. split; [exact Hcur|]. eexists. exact Hit.
+    + change (telems (xcomment_toks c nl)) with (celems (c, nl)). rewrite (p_groups_loose _ _ _ (celems_loose (c, nl))).
+      assert (Ef : flat_map celems cur ++ celems (c, nl) = flat_map celems (cur ++ [(c, nl)])) by (rewrite flat_map_app; cbn [flat_map]; rewrite app_nil_r; reflexivity).
+      rewrite Ef. destruct r as [|it2 r2].
+      * exists [], (cur ++ [(c, nl)]). cbn [flat_map p_groups map]. split; [reflexivity|]. split; [constructor|]. split; [|exact I].
+        rewrite map_app, xwf_items_app. cbn [map xcom_item fst snd xwf_items]. rewrite andb_true_r, Hit, andb_true_r. apply comw_items, Hcur.
+      * destruct (IH more (cur ++ [(c, nl)]) Hr) as (AG & tr & E & HG & Htr & _).
+        { rewrite forallb_app, Hcur. unfold comw. cbn [forallb fst snd]. rewrite Hit. reflexivity. }
+        exists AG, tr. repeat split; assumption.
+Qed.
+
+Lemma in_map_list {A B} (h : A -> B) (P : A -> Prop) (L : list B) :
+  (forall y, In y L -> exists a, y = h a /\ P a) -> exists AL, L = map h AL /\ Forall P AL.
+Proof.
+  induction L as [|y r IH]; intros H; [exists []; split; [reflexivity|constructor]|].
+  destruct (H y (or_introl eq_refl)) as (a & -> & Pa). destruct (IH (fun z Hz => H z (or_intror Hz))) as (AL & -> & HP).
+  exists (a :: AL). split; [reflexivity|constructor; assumption].
+Qed.
+
+(* ---- terminating the comment lines after the last field ---- *)
+Definition term_abs (tr : list xcom) : list xcom :=
+  match rev tr with (c, None) :: r => rev r ++ [(c, Some LF)] | _ => tr end.
+
+Lemma flat_celems_snoc a x : flat_map celems (a ++ [x]) = flat_map celems a ++ celems x.
+Proof. rewrite flat_map_app. cbn [flat_map]. rewrite app_nil_r. reflexivity. Qed.
+
+Lemma term_tr_celems tr : term_tr (flat_map celems tr) = flat_map celems (term_abs tr).
+Proof.
+  unfold term_abs. destruct (rev tr) as [|[c nl] r] eqn:Er.
+  - assert (tr = []) by (rewrite <- (rev_involutive tr), Er; reflexivity). subst tr. reflexivity.
+  - assert (Et : tr = rev r ++ [(c, nl)]) by (rewrite <- (rev_involutive tr), Er; reflexivity).
+    rewrite Et at 1. rewrite flat_celems_snoc. unfold term_tr. rewrite rev_app_distr.
+    destruct nl as [x|].
+    + cbn [celems fst snd xcomment_toks onl_toks telems map rev app]. rewrite Et, flat_celems_snoc. reflexivity.
+    + cbn [celems fst snd xcomment_toks onl_toks telems map rev app]. rewrite flat_celems_snoc, <- app_assoc. reflexivity.
+Qed.
+
+Lemma term_abs_wf tr more : xwf_items (map xcom_item tr) more = true -> forallb (comw true) (term_abs tr) = true.
+Proof.
+  intros H. unfold term_abs. destruct (rev tr) as [|[c nl] r] eqn:Er.
+  - assert (tr = []) by (rewrite <- (rev_involutive tr), Er; reflexivity). subst tr. reflexivity.
+  - assert (Et : tr = rev r ++ [(c, nl)]) by (rewrite <- (rev_involutive tr), Er; reflexivity).
+    rewrite Et, map_app, xwf_items_app in H. cbn [map xcom_item fst snd xwf_items] in H. apply andb_true_iff in H. destruct H as [H1 H2].
+    rewrite andb_true_r in H2. rewrite xwf_items_true in H1.
+    assert (Hr : forallb (comw true) (rev r) = true).
+    { rewrite forallb_forall in *. intros x Hx. apply (H1 (xcom_item x)). apply in_map. exact Hx. }
+    destruct nl as [x|].
+    + rewrite Et, forallb_app, Hr. unfold comw. cbn [forallb fst snd]. unfold xwf_comment in *. apply andb_true_iff in H2. destruct H2 as [A B].
+      rewrite A. cbn [onl_ok] in *. rewrite B. reflexivity.
+    + rewrite forallb_app, Hr. unfold comw. cbn [forallb fst snd]. unfold xwf_comment in *. apply andb_true_iff in H2. destruct H2 as [A _]. rewrite A. reflexivity.
+Qed.
+
+Lemma enl_p_ungroup2 G tr : (forall g, In g G -> exists cs, snd g = Node ENTRY cs /\ ensure_nl (snd g) = snd g) -> forallb loose tr = true ->
+  ensure_nl_list (p_ungroup G tr) = p_ungroup G (term_tr tr).
+Proof.
+  intros HG Htr. unfold p_ungroup, term_tr. destruct (rev tr) as [|x r] eqn:Er.
+  - assert (tr = []) by (rewrite <- (rev_involutive tr), Er; reflexivity). subst tr. rewrite !app_nil_r.
+    destruct G as [|g0 G0]; [reflexivity|]. assert (Hne : g0 :: G0 <> []) by discriminate.
+    destruct (exists_last Hne) as (G' & g & E). rewrite E in *. rewrite map_app, concat_app. cbn [map concat]. rewrite app_nil_r, !app_assoc, enl_snoc.
+    assert (Hin : In g (G' ++ [g])) by (apply in_or_app; right; left; reflexivity).
+    destruct (HG g Hin) as (cs & Ecs & En). f_equal. rewrite Ecs in *. rewrite En. reflexivity.
+  - assert (Et : tr = rev r ++ [x]) by (rewrite <- (rev_involutive tr), Er; reflexivity). rewrite Et at 1. rewrite app_assoc, enl_snoc, <- app_assoc.
+    assert (Hx : loose x = true) by (rewrite forallb_forall in Htr; apply Htr; apply in_rev; rewrite Er; left; reflexivity).
+    destruct x as [k s|]; [|discriminate]. destruct k; try discriminate.
+    + rewrite Et. reflexivity.
+    + rewrite Et, <- app_assoc. reflexivity.
+Qed.
+
+(* ---- the reformatted paragraph ---- *)
+Definition out_items (ind : indentation) (iel : bool) (mll : option N) (AL : list (list xcom * xfield)) : list xitem :=
+  flat_map (fun g => map xcom_item (fst g) ++ [XField (x_ws_field (xn ind (snd g)) iel mll (snd g))]) AL.
+Definition items_canon (ind : indentation) (I : list xitem) : bool :=
+  forallb (fun it => match it with XField f => xfield_canon (xn ind f) f | XComment _ _ => true end) I.
+
+Lemma den_out_items ind iel mll AL : ind_pos ind -> Forall good_group AL ->
+  den (concat (map (fun g => fst g ++ [snd g]) (map (fun g => (fst g, e_out ind iel mll (snd g))) (map gtree AL)))) (out_items ind iel mll AL) /\
+  forallb itw (out_items ind iel mll AL) = true /\ items_canon ind (out_items ind iel mll AL) = true.
+Proof.
+  intros Hi H. induction H as [|g r Hg Hr IH]; [split; [apply den_nil|split; reflexivity]|].
+  destruct IH as (D & W & C). destruct Hg as [Hpre (m & Hf)].
+  assert (Hv : valid_name (x_name (snd g)) = true) by (unfold xwf_field in Hf; repeat (apply andb_true_iff in Hf; destruct Hf as [Hf ?]); exact Hf).
+  cbn [map concat out_items flat_map fst snd]. split; [|split].
+  - apply den_app; [|exact D]. apply (den_group ind iel mll g m Hi Hf).
+  - fold (out_items ind iel mll r). rewrite !forallb_app, W, andb_true_r. cbn [forallb itw].
+    rewrite (x_ws_field_wf _ iel mll (snd g) m Hf (xn_pos ind _ Hi Hv)), andb_true_r.
+    rewrite forallb_forall in *. intros x Hx. apply in_map_iff in Hx. destruct Hx as (c & <- & Hc). exact (Hpre c Hc).
+  - fold (out_items ind iel mll r). unfold items_canon in *. rewrite !forallb_app, C, andb_true_r. cbn [forallb].
+    assert (En : xn ind (x_ws_field (xn ind (snd g)) iel mll (snd g)) = xn ind (snd g)).
+    { unfold xn. destruct ind; [|reflexivity]. rewrite (proj1 (x_ws_field_content _ iel mll (snd g) m Hf)). reflexivity. }
+    rewrite En, x_ws_field_canon, andb_true_r. rewrite forallb_forall. intros x Hx. apply in_map_iff in Hx. destruct Hx as (c & <- & _). reflexivity.
+Qed.
+
+Theorem pp_out_xpara ind iel mll esort f its more : ind_pos ind -> xwf_items (XField f :: its) more = true ->
+  exists lead f1 I',
+    den (children (pp_out ind iel mll esort (xblock_tree (XPara f its)))) (map xcom_item lead ++ XField f1 :: I') /\
+    forallb (comw true) lead = true /\ xwf_field f1 true = true /\ xwf_items I' true = true /\
+    xfield_canon (xn ind f1) f1 = true /\ items_canon ind I' = true.
+Proof.
+  intros Hi Hwf.
+  destruct (p_groups_abs (XField f :: its) more [] Hwf eq_refl) as (AG & tr & Eg & HG & Htr & Hne).
+  cbn [flat_map xitem_elems app] in Eg.
+  unfold pp_out. cbn [xblock_tree children]. rewrite ensure_nl_node. cbn [children]. unfold p_out. rewrite Eg. cbn [fst snd].
+  set (L := sort_opt (option_map on_snd esort) (map gtree AG)).
+  destruct (in_map_list gtree good_group L) as (AL & EL & HAL).
+  { intros y Hy. apply sort_opt_In in Hy. apply in_map_iff in Hy. destruct Hy as (a & <- & Ha). exists a. split; [reflexivity|].
+    rewrite Forall_forall in HG. exact (HG a Ha). }
+  assert (HALne : AL <> []).
+  { intros ->. assert (Hl : length L = length (map gtree AG)) by (apply Permutation.Permutation_length, sort_opt_perm).
+    rewrite EL, map_length in Hl. cbn in Hl. destruct AG; [congruence|discriminate]. }
+  rewrite EL.
+  rewrite enl_p_ungroup2; [|intros g Hg|apply flat_celems_loose].
+  2:{ apply in_map_iff in Hg. destruct Hg as (g0 & <- & _). cbn [snd]. eexists. split; [unfold e_out, entry_out; reflexivity|apply ensure_nl_e_out]. }
+  rewrite term_tr_celems. unfold p_ungroup.
+  destruct (den_out_items ind iel mll AL Hi HAL) as (D & W & C).
+  pose proof (den_app _ _ _ _ D (den_comments (term_abs tr))) as Dall.
+  pose proof (term_abs_wf tr more Htr) as Wtr.
+  destruct AL as [|g1 AL']; [congruence|]. cbn [out_items flat_map] in *. fold (out_items ind iel mll AL') in *.
+  rewrite <- !app_assoc in Dall. cbn [app] in Dall.
+  exists (fst g1), (x_ws_field (xn ind (snd g1)) iel mll (snd g1)), (out_items ind iel mll AL' ++ map xcom_item (term_abs tr)).
+  split; [exact Dall|].
+  rewrite !forallb_app in W. cbn [forallb itw] in W. apply andb_true_iff in W. destruct W as [W12 W3]. apply andb_true_iff in W12. destruct W12 as [W1 W2].
+  rewrite andb_true_r in W2.
+  unfold items_canon in C. rewrite !forallb_app in C. cbn [forallb] in C. apply andb_true_iff in C. destruct C as [C12 C3]. apply andb_true_iff in C12. destruct C12 as [_ C2].
+  rewrite andb_true_r in C2.
+  inversion HAL as [|? ? Hg1 _]; subst. destruct Hg1 as [Hpre (m & Hf)].
+  assert (En : xn ind (x_ws_field (xn ind (snd g1)) iel mll (snd g1)) = xn ind (snd g1)).
+  { unfold xn. destruct ind; [|reflexivity]. rewrite (proj1 (x_ws_field_content _ iel mll (snd g1) m Hf)). reflexivity. }
+  split; [exact Hpre|]. split; [exact W2|]. split.
+  - rewrite xwf_items_true, forallb_app, W3. cbn [andb]. rewrite forallb_forall in *. intros x Hx. apply in_map_iff in Hx.
+    destruct Hx as (c & <- & Hc). exact (Wtr c Hc).
+  - split; [exact C2|]. unfold items_canon. rewrite forallb_app, C3. cbn [andb]. rewrite forallb_forall. intros x Hx.
+    apply in_map_iff in Hx. destruct Hx as (c & <- & _). reflexivity.
+Qed.
